@@ -423,7 +423,8 @@ func (w *writer) paragraph(x *wpmodel.XW, b wpmodel.Block, idx int) {
 	case wpmodel.BPara:
 		style = paraStyleID(b.Style)
 	}
-	if style != "" || num || outline {
+	numOff := b.NumOff && !num
+	if style != "" || num || outline || numOff {
 		x.Open(w.e("pPr"))
 		if style != "" {
 			x.Empty(w.e("pStyle"), w.a("val"), style) // 17.3.1.27
@@ -434,6 +435,14 @@ func (w *writer) paragraph(x *wpmodel.XW, b wpmodel.Block, idx int) {
 				x.Empty(w.e("ilvl"), w.a("val"), strconv.Itoa(b.Depth))
 			}
 			x.Empty(w.e("numId"), w.a("val"), strconv.Itoa(w.o.NumID(b.List)))
+			x.Close(w.e("numPr"))
+		}
+		if numOff {
+			x.Open(w.e("numPr")) // numbering switched off for this paragraph (17.9.18: numId 0)
+			if idx%2 == 0 {
+				x.Empty(w.e("ilvl"), w.a("val"), "0")
+			}
+			x.Empty(w.e("numId"), w.a("val"), "0")
 			x.Close(w.e("numPr"))
 		}
 		if outline {
